@@ -225,7 +225,7 @@ def eval_ops(ops, exe, key, shards=1, env=None, shard_timeout=900):
                     if j is None:
                         # the process died on this operation alone (a fatal error such as a Go stack overflow cannot be recovered
                         # in-process): outcome crash; the detail leads with the runtime's own "fatal error: …" line
-                        fe = re.search(r"^(?:fatal error|panic|runtime): .*$", err1 or "", re.M)
+                        fe = re.search(r"^(?:fatal error|panic): .*$", err1 or "", re.M) or re.search(r"^runtime: .*$", err1 or "", re.M)
                         j = {"id": oid, key: {"outcome": "crash", "detail": ((fe.group(0) + " | ") if fe else "") + (err1 or "")[-300:]}}
                 except subprocess.TimeoutExpired:
                     j = {"id": oid, key: {"outcome": "timeout"}}
